@@ -111,6 +111,7 @@ func init() {
 		bothRan := map[string]int{}
 		seenGN := map[string]bool{}
 		check := func(c *x509.Certificate, what string, detail map[string]interface{}) {
+			tick()
 			// the seventeen general-name lints against their full model (Kernels/GeneralNames.v)
 			if term, tag, ok := gnCase(c); ok && !seenGN[term] {
 				seenGN[term] = true
